@@ -373,8 +373,14 @@ func (g *vgen) f64() float64 {
 func (g *vgen) str() string {
 	return []string{"", "a", "ab", "A b", "é", "k,", "a:b", "\"q\"", "line\nbreak", "<tag>&", "\U0001F600", "0", "true"}[g.rng.Intn(13)]
 }
+var tmCalls int
+
 func (g *vgen) tm() (time.Time, string) {
-	sec := []int64{0, 1, -1, 1700000000, 951782400, -2208988800, 32503680000}[g.rng.Intn(7)]
+	tmCalls++
+	if tmCalls <= 3 { // the zero time.Time, certainly
+		return time.Time{}, fmt.Sprintf("(GTime %s %s %s)", CoqZ(-62135596800), CoqZ(0), CoqZ(-1))
+	}
+	sec := []int64{0, 1, -1, 1700000000, 951782400, -2208988800, 32503680000, -62135596800}[g.rng.Intn(8)] // the last one: the zero time.Time (with nsec 0, UTC)
 	nsec := []int64{0, 0, 1, 500000000, 999999999, 123456789}[g.rng.Intn(6)]
 	offs := []int{-1, -1, 0, 60, -300, 330, 765}
 	off := offs[g.rng.Intn(len(offs))]
@@ -1027,7 +1033,18 @@ func main() {
 			m.Evaluations++
 			continue
 		}
-		params := prog.Params()
+		// the slice Params() returns belongs to the caller: scribbling on it must change neither what a
+		// later Params() reports nor what Run requires
+		scratch := prog.Params()
+		for j := range scratch {
+			scratch[j] = "@" + scratch[j]
+		}
+		if len(scratch) > 1 {
+			scratch[0], scratch[len(scratch)-1] = scratch[len(scratch)-1], scratch[0]
+			scratch = scratch[:1]
+		}
+		_ = scratch
+		params := append([]string{}, prog.Params()...)
 		sort.Strings(params)
 		entry["params"] = params
 		m.Evaluations++
